@@ -1,6 +1,8 @@
 package zzharness
 
 import (
+	"strings"
+	"reflect"
 	"fmt"
 	"sort"
 	"testing"
@@ -120,7 +122,11 @@ func genGW(seed uint64, tier string, prop string) Case {
 			if by == 0 {
 				by = 5
 			}
-			c.Ops = append(c.Ops, Op{K: "inc", A: []int64{sw, key(), by, cond, int64(r.intn(5)) - 2, int64(r.intn(4))}})
+			ti := int64(3) // int64
+			if r.chance(1, 2) {
+				ti = int64(r.intn(len(incKinds)))
+			}
+			c.Ops = append(c.Ops, Op{K: "inc", A: []int64{sw, key(), by, cond, int64(r.intn(5)) - 2, int64(r.intn(4)), ti}})
 		case 10:
 			c.Ops = append(c.Ops, Op{K: "spush", A: []int64{sw, key(), int64(1 + r.intn(4))}})
 		case 11:
@@ -142,11 +148,6 @@ func genGW(seed uint64, tier string, prop string) Case {
 		}
 	}
 	c.Sched = &Sched{Seed: r.next()} // sequential client: no preemption, the clock drives the tickers
-	if prop == "C06" && r.chance(1, 60) {
-		// re-demonstration of the known finding, kept out of the main search
-		c.Cfg["probe_phantom"] = 1
-		c.Ops = []Op{{K: "inc", A: []int64{0, 1, 5, 2, 2, 0}}, {K: "spush", A: []int64{0, 1, 2}}, {K: "get", A: []int64{0, 1}}}
-	}
 	return c
 }
 
@@ -253,10 +254,6 @@ func runGW(t *testing.T, c Case) (res Result) {
 	}
 	if v != nil {
 		v.Counters, v.SimNanos, v.TraceHash = res.Counters, res.SimNanos, res.TraceHash
-		if c.cfg("probe_phantom", 0) == 1 {
-			v.Detail = "[" + v.Class + "] " + v.Detail
-			v.Class = "failed_condition_increment_leaves_phantom_record"
-		}
 		return *v
 	}
 	if e := g.srv.logs.find("grpc gateway panic"); e != "" {
@@ -702,12 +699,20 @@ func (g *gwRun) step(i int, op Op) *Result {
 		g.families["increment"] = true
 		key := keyName(op.A[1])
 		by, condOp, condVal, meta := op.A[2], op.A[3], op.A[4], op.A[5]
-		old := m[key]
-		var cond *hydrapb.IncrementInt64Condition
-		if condOp > 0 {
-			cond = &hydrapb.IncrementInt64Condition{RelationalOperator: hydrapb.Relational_Operator(condOp - 1), Value: condVal}
-			meta = 0
+		kind := "int64"
+		if len(op.A) > 6 {
+			kind = incKinds[int(op.A[6])%len(incKinds)]
 		}
+		if kind[0] == 'u' {
+			// unsigned counters: the request cannot carry a negative step or reference value
+			if by < 0 {
+				by = -by
+			}
+			if condVal < 0 {
+				condVal = -condVal
+			}
+		}
+		old := m[key]
 		var ifNot, ifEx *hydrapb.IncrementRequestMetadata
 		if meta&1 != 0 {
 			s := "inc-creator"
@@ -717,58 +722,45 @@ func (g *gwRun) step(i int, op Op) *Result {
 			s := "inc-updater"
 			ifEx = &hydrapb.IncrementRequestMetadata{UpdatedBy: &s}
 		}
-		if g.c.cfg("probe_phantom", 0) == 0 {
-			// Known finding (see known_findings.jsonl, class failed_condition_increment_leaves_phantom_record):
-			// an increment whose condition is not met on a missing or void record initialises it to 0 in
-			// memory without saving it. The search steers away from that trigger; the probe case re-demonstrates it.
-			if old != nil && old.Kind == "void" {
-				return nil
-			}
-			if old == nil && cond != nil && !relHolds(hydrapb.Relational_Operator(condOp-1), 0, condVal) {
-				return nil
-			}
-		}
-		resp, err := cl.incInt64(sw, key, by, cond, ifNot, ifEx)
+		got, incremented, err := cl.incAny(kind, sw, key, by, condOp, condVal, ifNot, ifEx)
 		if cl.hung != "" {
 			return nil
 		}
-		if old != nil && old.Kind != "int64" && old.Kind != "void" {
+		if old != nil && old.Kind != kind && old.Kind != "void" {
 			if err == nil {
-				return g.fail("increment_on_wrong_type_succeeded", "op %d: IncrementInt64 on key %s holding %s returned success", i, key, old.valueString())
+				return g.fail("increment_on_wrong_type_succeeded", "op %d: Increment(%s) on key %s holding %s returned success", i, kind, key, old.valueString())
 			}
 			return nil
 		}
-		if err != nil || resp == nil {
-			return g.fail("increment_error", "op %d: IncrementInt64(%s,%s,%d): %v", i, sw, key, by, err)
+		if err != nil || got == nil {
+			return g.fail("increment_error", "op %d: Increment(%s)(%s,%s,%d): %v", i, kind, sw, key, by, err)
 		}
-		cur := int64(0)
-		if old != nil && old.Kind == "int64" {
-			cur = old.I
+		cur := &mrec{Kind: kind}
+		if old != nil && old.Kind == kind {
+			cur = old
 		}
-		pass := condOp == 0 || relHolds(hydrapb.Relational_Operator(condOp-1), cur, condVal)
-		if resp.IsIncremented != pass {
-			return g.fail("increment_condition", "op %d: IncrementInt64(%s by %d, cond op %d val %d) on current %d: IsIncremented=%v, model says %v", i, key, by, condOp, condVal, cur, resp.IsIncremented, pass)
+		pass := condOp == 0 || incRelHolds(hydrapb.Relational_Operator(condOp-1), cur, condVal)
+		if incremented != pass {
+			return g.fail("increment_condition", "op %d: Increment(%s)(%s by %d, cond op %d val %d) on current %s: IsIncremented=%v, model says %v", i, kind, key, by, condOp, condVal, cur.valueString(), incremented, pass)
 		}
 		if pass {
-			if resp.Value != cur+by {
-				return g.fail("increment_value", "op %d: IncrementInt64(%s by %d) on %d returned %d", i, key, by, cur, resp.Value)
+			n := incApply(cur, by)
+			if got.valueString() != n.valueString() {
+				return g.fail("increment_value", "op %d: Increment(%s)(%s by %d) on %s returned %s, want %s", i, kind, key, by, cur.valueString(), got.valueString(), n.valueString())
 			}
-			n := &mrec{Kind: "int64"}
 			if old != nil {
-				n = old.clone()
-				n.Kind = "int64"
+				n.CreatedAt, n.UpdatedAt, n.ExpiredAt, n.CreatedBy, n.UpdatedBy = old.CreatedAt, old.UpdatedAt, old.ExpiredAt, old.CreatedBy, old.UpdatedBy
 			}
-			n.I = cur + by
 			if (old == nil || old.Kind == "void") && ifNot != nil {
 				n.CreatedBy = "inc-creator"
 			}
-			if old != nil && old.Kind == "int64" && ifEx != nil {
+			if old != nil && old.Kind == kind && ifEx != nil {
 				n.UpdatedBy = "inc-updater"
 			}
 			ensure()[key] = n
-			g.stored["int64"] = true
-		} else if resp.Value != cur {
-			return g.fail("increment_value", "op %d: IncrementInt64 with unmet condition returned %d, current value is %d", i, resp.Value, cur)
+			g.stored[kind] = true
+		} else if got.valueString() != cur.valueString() {
+			return g.fail("increment_value", "op %d: Increment(%s) with unmet condition returned %s, current value is %s", i, kind, got.valueString(), cur.valueString())
 		}
 	case "spush":
 		g.families["uint32slice"] = true
@@ -871,4 +863,151 @@ func relHolds(op hydrapb.Relational_Operator, cur, ref int64) bool {
 		return cur <= ref
 	}
 	return cur == ref
+}
+
+// ---------------------------------------------------------------------------
+// typed increments (all ten Increment* RPCs, called through reflection)
+
+var incKinds = []string{"int8", "int16", "int32", "int64", "uint8", "uint16", "uint32", "uint64", "float32", "float64"}
+
+// incStep is the step a request with the integer argument by carries: whole numbers for the integer kinds, halves
+// for the float kinds.
+func incStepF(by int64) float64 { return float64(by) * 0.5 }
+
+// incApply returns cur + step in the arithmetic of the counter's own Go type (wrap-around included).
+func incApply(cur *mrec, by int64) *mrec {
+	n := &mrec{Kind: cur.Kind}
+	switch cur.Kind {
+	case "int8":
+		n.I = int64(int8(cur.I) + int8(by))
+	case "int16":
+		n.I = int64(int16(cur.I) + int16(by))
+	case "int32":
+		n.I = int64(int32(cur.I) + int32(by))
+	case "int64":
+		n.I = cur.I + by
+	case "uint8":
+		n.U = uint64(uint8(cur.U) + uint8(by))
+	case "uint16":
+		n.U = uint64(uint16(cur.U) + uint16(by))
+	case "uint32":
+		n.U = uint64(uint32(cur.U) + uint32(by))
+	case "uint64":
+		n.U = cur.U + uint64(by)
+	case "float32":
+		n.F = float64(float32(cur.F) + float32(incStepF(by)))
+	case "float64":
+		n.F = cur.F + incStepF(by)
+	}
+	return n
+}
+
+func incRelHolds(op hydrapb.Relational_Operator, cur *mrec, ref int64) bool {
+	c := 0
+	switch cur.Kind {
+	case "int8", "int16", "int32", "int64":
+		switch {
+		case cur.I < ref:
+			c = -1
+		case cur.I > ref:
+			c = 1
+		}
+	case "uint8", "uint16", "uint32", "uint64":
+		switch {
+		case cur.U < uint64(ref):
+			c = -1
+		case cur.U > uint64(ref):
+			c = 1
+		}
+	default:
+		switch {
+		case cur.F < float64(ref):
+			c = -1
+		case cur.F > float64(ref):
+			c = 1
+		}
+	}
+	switch op {
+	case hydrapb.Relational_EQUAL:
+		return c == 0
+	case hydrapb.Relational_NOT_EQUAL:
+		return c != 0
+	case hydrapb.Relational_GREATER_THAN:
+		return c > 0
+	case hydrapb.Relational_GREATER_THAN_OR_EQUAL:
+		return c >= 0
+	case hydrapb.Relational_LESS_THAN:
+		return c < 0
+	case hydrapb.Relational_LESS_THAN_OR_EQUAL:
+		return c <= 0
+	}
+	return c == 0
+}
+
+func setNumField(f reflect.Value, i int64, fl float64, isFloat bool) {
+	switch f.Kind() {
+	case reflect.Int32, reflect.Int64:
+		f.SetInt(i)
+	case reflect.Uint32, reflect.Uint64:
+		f.SetUint(uint64(i))
+	case reflect.Float32, reflect.Float64:
+		if isFloat {
+			f.SetFloat(fl)
+		} else {
+			f.SetFloat(float64(i))
+		}
+	}
+}
+
+// incAny calls Gateway.Increment<Kind>. It returns the value of the reply in model form.
+func (c *gwClient) incAny(kind, swamp, key string, by, condOp, condVal int64, ifNot, ifEx *hydrapb.IncrementRequestMetadata) (val *mrec, incremented bool, err error) {
+	name := "Increment" + strings.ToUpper(kind[:1]) + kind[1:]
+	m := reflect.ValueOf(c.srv.gw).MethodByName(name)
+	if !m.IsValid() {
+		return nil, false, fmt.Errorf("no gateway method %s", name)
+	}
+	isFloat := kind[0] == 'f'
+	req := reflect.New(m.Type().In(1).Elem())
+	e := req.Elem()
+	e.FieldByName("IslandID").SetUint(c.island)
+	e.FieldByName("SwampName").SetString(swamp)
+	e.FieldByName("Key").SetString(key)
+	setNumField(e.FieldByName("IncrementBy"), by, incStepF(by), isFloat)
+	if condOp > 0 {
+		cf := e.FieldByName("Condition")
+		cv := reflect.New(cf.Type().Elem())
+		cv.Elem().FieldByName("RelationalOperator").SetInt(condOp - 1)
+		setNumField(cv.Elem().FieldByName("Value"), condVal, float64(condVal), false)
+		cf.Set(cv)
+	}
+	if ifNot != nil {
+		e.FieldByName("SetIfNotExist").Set(reflect.ValueOf(ifNot))
+	}
+	if ifEx != nil {
+		e.FieldByName("SetIfExist").Set(reflect.ValueOf(ifEx))
+	}
+	c.call(name, func() {
+		out := m.Call([]reflect.Value{reflect.ValueOf(ctxBg), req})
+		if !out[1].IsNil() {
+			err = out[1].Interface().(error)
+			return
+		}
+		if out[0].IsNil() {
+			err = fmt.Errorf("nil reply")
+			return
+		}
+		r := out[0].Elem()
+		incremented = r.FieldByName("IsIncremented").Bool()
+		val = &mrec{Kind: kind}
+		v := r.FieldByName("Value")
+		switch v.Kind() {
+		case reflect.Int32, reflect.Int64:
+			val.I = v.Int()
+		case reflect.Uint32, reflect.Uint64:
+			val.U = v.Uint()
+		default:
+			val.F = v.Float()
+		}
+	})
+	return
 }
